@@ -76,7 +76,370 @@ package environment
 // The compiled-regexp cache is shared by every evaluator of the process.
 //@ func cachedRegexp(reg string) (r *regexp.Regexp, err error)
 //@   guarded_global regCache regCacheMutex
+//@   requires regCache != nil
+//@   modifies regCache[*]
+//@   panics never
 
 //@ func New() (result *Environment)
 //@   ensures @C17 new.env: result != nil && fresh(result) && result.global != nil && result.functions != nil && len(result.local) == 0
+//@   panics never
+
+// ---- the built-in functions (C17) -----------------------------------------------------------------
+// Every built-in is a host function in the sense of the typed contract HostFn: it gets valid objects,
+// returns a valid object, changes nothing that existed before, and - panic() apart - never panics.
+// numLt / numLe are the language's own < and <= on numbers (an integer meets a float as a float).
+
+//@ func fnMin(args []object.Object) (result object.Object)
+//@   requires forall i in 0..len(args) :: validObj(args[i])
+//@   modifies nothing
+//@   ensures @C17 min.arity: len(args) != 2 ==> isNull(result)
+//@   ensures @C17 min.smaller: len(args) == 2 && isNum(args[0]) && isNum(args[1]) && numLt(args[1], args[0]) ==> result === args[1]
+//@   ensures @C17 min.first: len(args) == 2 && isNum(args[0]) && isNum(args[1]) && !numLt(args[1], args[0]) ==> result === args[0]
+//@   ensures @C17 min.valid: validObj(result)
+//@   implements HostFn
+//@   panics never
+
+//@ func fnMax(args []object.Object) (result object.Object)
+//@   requires forall i in 0..len(args) :: validObj(args[i])
+//@   modifies nothing
+//@   ensures @C17 max.arity: len(args) != 2 ==> isNull(result)
+//@   ensures @C17 max.larger: len(args) == 2 && isNum(args[0]) && isNum(args[1]) && numLt(args[0], args[1]) ==> result === args[1]
+//@   ensures @C17 max.first: len(args) == 2 && isNum(args[0]) && isNum(args[1]) && !numLt(args[0], args[1]) ==> result === args[0]
+//@   ensures @C17 max.valid: validObj(result)
+//@   implements HostFn
+//@   panics never
+
+//@ func fnBetween(args []object.Object) (result object.Object)
+//@   requires forall i in 0..len(args) :: validObj(args[i])
+//@   modifies nothing
+//@   ensures @C17 between.arity: len(args) != 3 ==> isNull(result)
+//@   ensures @C17 between.types: len(args) == 3 && !(isNum(args[0]) && isNum(args[1]) && isNum(args[2])) ==> isNull(result)
+//@   ensures @C17 between.def: len(args) == 3 && isNum(args[0]) && isNum(args[1]) && isNum(args[2]) ==> isBool(result) && fresh(result) && bval(result) == (numLe(args[1], args[0]) && numLe(args[0], args[2]))
+//@   implements HostFn
+//@   panics never
+//@ loop 1 invariant between.numbers: forall k in 0..len(args) :: k <= rangeindex ==> isNum(args[k])
+
+//@ func numberCompare(a object.Object, b object.Object) (less bool, lessEq bool, ok bool)
+//@   requires validObj(a) && validObj(b)
+//@   modifies nothing
+//@   ensures @C17 numcmp.ok: ok == (isNum(a) && isNum(b))
+//@   ensures @C17 numcmp.def: ok ==> less == numLt(a, b) && lessEq == numLe(a, b)
+//@   ensures @C17 numcmp.not: !ok ==> !less && !lessEq
+//@   panics never
+
+// sort and reverse: a new array holding a permutation of the input's elements; the input is unchanged.
+// (That the permutation is ordered is not stated: the ordering is delegated to sort.Slice, whose effect
+// is modelled as "some permutation".)
+//@ func sortHelper(args []object.Object, lowerCase bool, doReverse bool) (result object.Object)
+//@   requires len(args) >= 1 && isArray(args[0]) && validObj(args[0]) && forall j in 0..len(elems(args[0])) :: validObj(elems(args[0])[j])
+//@   modifies nothing
+//@   ensures @C17 sort.array: isArray(result) && fresh(result) && fresh(elems(result)) && len(elems(result)) == len(elems(args[0]))
+//@   ensures @C17 sort.perm: forall i in 0..len(elems(result)) :: exists j in 0..len(elems(args[0])) :: elems(result)[i] === elems(args[0])[j]
+//@   ensures sort.valid: validObj(result)
+//@   panics never
+//@ loop 1 invariant sorthelper.items: fresh(items) && len(items) == len(elems(args[0])) && rangeindex < len(items)
+//@ loop 1 invariant sorthelper.index: forall k in 0..len(items) :: k <= rangeindex ==> items[k].index == k
+//@ loop 2 invariant sorthelper.out: fresh(out) && fresh(items) && len(out) == len(items) && len(items) == len(elems(args[0])) && rangeindex < len(items)
+//@ loop 2 invariant sorthelper.range: forall k in 0..len(items) :: 0 <= items[k].index && items[k].index < len(elems(args[0]))
+//@ loop 2 invariant sorthelper.copied: forall k in 0..len(out) :: k <= rangeindex ==> out[k] === elems(args[0])[items[k].index] && validObj(out[k])
+
+//@ func sortHelper$1(i int, j int) (result bool)
+//@   requires 0 <= i && i < len(items) && 0 <= j && j < len(items)
+//@   modifies nothing
+//@   panics never
+
+//@ func fnSort(args []object.Object) (result object.Object)
+//@   requires forall i in 0..len(args) :: validObj(args[i])
+//@   requires forall i in 0..len(args) :: isArray(args[i]) ==> forall j in 0..len(elems(args[i])) :: validObj(elems(args[i])[j])
+//@   modifies nothing
+//@   ensures @C17 fnsort.bad: !((len(args) == 1 || (len(args) == 2 && isBool(args[1]))) && isArray(args[0])) ==> isNull(result)
+//@   ensures @C17 fnsort.array: (len(args) == 1 || (len(args) == 2 && isBool(args[1]))) && isArray(args[0]) ==> isArray(result) && fresh(result) && len(elems(result)) == len(elems(args[0]))
+//@   ensures @C17 fnsort.perm: (len(args) == 1 || (len(args) == 2 && isBool(args[1]))) && isArray(args[0]) ==> forall i in 0..len(elems(result)) :: exists j in 0..len(elems(args[0])) :: elems(result)[i] === elems(args[0])[j]
+//@   ensures fnsort.valid: validObj(result)
+//@   implements HostFn
+//@   panics never
+
+// ---- the remaining built-ins: arity and type discipline, result kinds, and the values that have a
+// closed form (generated list; see /verif/tools/gen_builtin_contracts.py) ---------------------------------
+//@ func fnDay(args []object.Object) (result object.Object)
+//@   requires forall i in 0..len(args) :: validObj(args[i])
+//@   requires forall i in 0..len(args) :: isArray(args[i]) ==> forall j in 0..len(elems(args[i])) :: validObj(elems(args[i])[j])
+//@   modifies nothing
+//@   ensures @C17 day.bad: !(len(args) == 1 && isInt(args[0])) ==> isNull(result)
+//@   ensures @C17 day.kind: len(args) == 1 && isInt(args[0]) ==> isInt(result)
+//@   ensures fnday.valid: validObj(result)
+//@   implements HostFn
+//@   panics never
+
+//@ func fnFloat(args []object.Object) (result object.Object)
+//@   requires forall i in 0..len(args) :: validObj(args[i])
+//@   requires forall i in 0..len(args) :: isArray(args[i]) ==> forall j in 0..len(elems(args[i])) :: validObj(elems(args[i])[j])
+//@   modifies nothing
+//@   ensures @C17 float.arity: len(args) != 1 ==> isNull(result)
+//@   ensures @C17 float.value: len(args) == 1 && isStr(args[0]) ==> isNull(result) || (isFloat(result) && fval(result) === decFloat(sval(args[0]), 64))
+//@   ensures @C17 float.kind: isNull(result) || isFloat(result)
+//@   ensures fnfloat.valid: validObj(result)
+//@   implements HostFn
+//@   panics never
+
+//@ func fnGetenv(args []object.Object) (result object.Object)
+//@   requires forall i in 0..len(args) :: validObj(args[i])
+//@   requires forall i in 0..len(args) :: isArray(args[i]) ==> forall j in 0..len(elems(args[i])) :: validObj(elems(args[i])[j])
+//@   modifies nothing
+//@   ensures @C17 getenv.arity: len(args) != 1 ==> isNull(result)
+//@   ensures @C17 getenv.kind: len(args) == 1 ==> isStr(result)
+//@   ensures fngetenv.valid: validObj(result)
+//@   implements HostFn
+//@   panics never
+
+//@ func fnHour(args []object.Object) (result object.Object)
+//@   requires forall i in 0..len(args) :: validObj(args[i])
+//@   requires forall i in 0..len(args) :: isArray(args[i]) ==> forall j in 0..len(elems(args[i])) :: validObj(elems(args[i])[j])
+//@   modifies nothing
+//@   ensures @C17 hour.bad: !(len(args) == 1 && isInt(args[0])) ==> isNull(result)
+//@   ensures @C17 hour.kind: len(args) == 1 && isInt(args[0]) ==> isInt(result)
+//@   ensures fnhour.valid: validObj(result)
+//@   implements HostFn
+//@   panics never
+
+//@ func fnInt(args []object.Object) (result object.Object)
+//@   requires forall i in 0..len(args) :: validObj(args[i])
+//@   requires forall i in 0..len(args) :: isArray(args[i]) ==> forall j in 0..len(elems(args[i])) :: validObj(elems(args[i])[j])
+//@   modifies nothing
+//@   ensures @C17 int.arity: len(args) != 1 ==> isNull(result)
+//@   ensures @C17 int.value: len(args) == 1 && isStr(args[0]) ==> isNull(result) || (isInt(result) && ival(result) == decInt(sval(args[0]), 10, 64))
+//@   ensures @C17 int.kind: isNull(result) || isInt(result)
+//@   ensures fnint.valid: validObj(result)
+//@   implements HostFn
+//@   panics never
+
+//@ func fnJoin(args []object.Object) (result object.Object)
+//@   requires forall i in 0..len(args) :: validObj(args[i])
+//@   requires forall i in 0..len(args) :: isArray(args[i]) ==> forall j in 0..len(elems(args[i])) :: validObj(elems(args[i])[j])
+//@   modifies nothing
+//@   ensures @C17 join.bad: !(len(args) == 2 && isArray(args[0]) && isStr(args[1])) ==> isNull(result)
+//@   ensures @C17 join.kind: len(args) == 2 && isArray(args[0]) && isStr(args[1]) ==> isStr(result)
+//@   ensures fnjoin.valid: validObj(result)
+//@   implements HostFn
+//@   panics never
+
+//@ func fnKeys(args []object.Object) (result object.Object)
+//@   requires forall i in 0..len(args) :: validObj(args[i])
+//@   requires forall i in 0..len(args) :: isArray(args[i]) ==> forall j in 0..len(elems(args[i])) :: validObj(elems(args[i])[j])
+//@   modifies nothing
+//@   ensures @C17 keys.bad: !(len(args) == 1 && isHash(args[0])) ==> isNull(result)
+//@   ensures @C17 keys.kind: len(args) == 1 && isHash(args[0]) ==> isArray(result) && fresh(result)
+//@   ensures fnkeys.valid: validObj(result)
+//@   implements HostFn
+//@   panics never
+//@ loop 1 invariant keys.array: fresh(array) && len(array) == len(entries) && rangeindex < len(array)
+//@ loop 1 invariant keys.valid: forall k in 0..len(array) :: k <= rangeindex ==> validObj(array[k])
+
+//@ func fnLen(args []object.Object) (result object.Object)
+//@   requires forall i in 0..len(args) :: validObj(args[i])
+//@   requires forall i in 0..len(args) :: isArray(args[i]) ==> forall j in 0..len(elems(args[i])) :: validObj(elems(args[i])[j])
+//@   modifies nothing
+//@   ensures @C17 len.arity: len(args) != 1 ==> isNull(result)
+//@   ensures @C17 len.array: len(args) == 1 && isArray(args[0]) ==> isInt(result) && ival(result) == len(elems(args[0]))
+//@   ensures @C17 len.string: len(args) == 1 && isStr(args[0]) ==> isInt(result) && ival(result) == runeCount(sval(args[0]))
+//@   ensures fnlen.valid: validObj(result)
+//@   implements HostFn
+//@   panics never
+
+//@ func fnLower(args []object.Object) (result object.Object)
+//@   requires forall i in 0..len(args) :: validObj(args[i])
+//@   requires forall i in 0..len(args) :: isArray(args[i]) ==> forall j in 0..len(elems(args[i])) :: validObj(elems(args[i])[j])
+//@   modifies nothing
+//@   ensures @C17 lower.arity: len(args) != 1 ==> isNull(result)
+//@   ensures @C17 lower.kind: len(args) == 1 ==> isStr(result)
+//@   ensures fnlower.valid: validObj(result)
+//@   implements HostFn
+//@   panics never
+
+//@ func fnMatch(args []object.Object) (result object.Object)
+//@   requires forall i in 0..len(args) :: validObj(args[i])
+//@   requires forall i in 0..len(args) :: isArray(args[i]) ==> forall j in 0..len(elems(args[i])) :: validObj(elems(args[i])[j])
+//@   requires regCache != nil
+//@   modifies regCache[*]
+//@   ensures @C17 match.arity: len(args) != 2 ==> isBool(result) && !bval(result)
+//@   ensures @C17 match.kind: isBool(result)
+//@   ensures fnmatch.valid: validObj(result)
+//@   implements HostFn
+//@   panics never
+
+//@ func fnMinute(args []object.Object) (result object.Object)
+//@   requires forall i in 0..len(args) :: validObj(args[i])
+//@   requires forall i in 0..len(args) :: isArray(args[i]) ==> forall j in 0..len(elems(args[i])) :: validObj(elems(args[i])[j])
+//@   modifies nothing
+//@   ensures @C17 minute.bad: !(len(args) == 1 && isInt(args[0])) ==> isNull(result)
+//@   ensures @C17 minute.kind: len(args) == 1 && isInt(args[0]) ==> isInt(result)
+//@   ensures fnminute.valid: validObj(result)
+//@   implements HostFn
+//@   panics never
+
+//@ func fnMonth(args []object.Object) (result object.Object)
+//@   requires forall i in 0..len(args) :: validObj(args[i])
+//@   requires forall i in 0..len(args) :: isArray(args[i]) ==> forall j in 0..len(elems(args[i])) :: validObj(elems(args[i])[j])
+//@   modifies nothing
+//@   ensures @C17 month.bad: !(len(args) == 1 && isInt(args[0])) ==> isNull(result)
+//@   ensures @C17 month.kind: len(args) == 1 && isInt(args[0]) ==> isInt(result)
+//@   ensures fnmonth.valid: validObj(result)
+//@   implements HostFn
+//@   panics never
+
+//@ func fnNow(args []object.Object) (result object.Object)
+//@   requires forall i in 0..len(args) :: validObj(args[i])
+//@   requires forall i in 0..len(args) :: isArray(args[i]) ==> forall j in 0..len(elems(args[i])) :: validObj(elems(args[i])[j])
+//@   modifies nothing
+//@   ensures @C17 now.kind: isInt(result)
+//@   ensures fnnow.valid: validObj(result)
+//@   implements HostFn
+//@   panics never
+
+//@ func fnPrint(args []object.Object) (result object.Object)
+//@   requires forall i in 0..len(args) :: validObj(args[i])
+//@   requires forall i in 0..len(args) :: isArray(args[i]) ==> forall j in 0..len(elems(args[i])) :: validObj(elems(args[i])[j])
+//@   modifies nothing
+//@   ensures @C17 print.void: isVoid(result)
+//@   ensures fnprint.valid: validObj(result)
+//@   implements HostFn
+//@   panics never
+
+//@ func fnPrintf(args []object.Object) (result object.Object)
+//@   requires forall i in 0..len(args) :: validObj(args[i])
+//@   requires forall i in 0..len(args) :: isArray(args[i]) ==> forall j in 0..len(elems(args[i])) :: validObj(elems(args[i])[j])
+//@   modifies nothing
+//@   ensures @C17 printf.void: isVoid(result)
+//@   ensures fnprintf.valid: validObj(result)
+//@   implements HostFn
+//@   panics never
+
+//@ func fnReplace(args []object.Object) (result object.Object)
+//@   requires forall i in 0..len(args) :: validObj(args[i])
+//@   requires forall i in 0..len(args) :: isArray(args[i]) ==> forall j in 0..len(elems(args[i])) :: validObj(elems(args[i])[j])
+//@   requires regCache != nil
+//@   modifies regCache[*]
+//@   ensures @C17 replace.arity: len(args) != 3 ==> isNull(result)
+//@   ensures fnreplace.valid: validObj(result)
+//@   implements HostFn
+//@   panics never
+
+//@ func fnReverse(args []object.Object) (result object.Object)
+//@   requires forall i in 0..len(args) :: validObj(args[i])
+//@   requires forall i in 0..len(args) :: isArray(args[i]) ==> forall j in 0..len(elems(args[i])) :: validObj(elems(args[i])[j])
+//@   modifies nothing
+//@   ensures @C17 reverse.bad: !((len(args) == 1 || (len(args) == 2 && isBool(args[1]))) && isArray(args[0])) ==> isNull(result)
+//@   ensures @C17 reverse.array: (len(args) == 1 || (len(args) == 2 && isBool(args[1]))) && isArray(args[0]) ==> isArray(result) && fresh(result) && len(elems(result)) == len(elems(args[0]))
+//@   ensures @C17 reverse.perm: (len(args) == 1 || (len(args) == 2 && isBool(args[1]))) && isArray(args[0]) ==> forall i in 0..len(elems(result)) :: exists j in 0..len(elems(args[0])) :: elems(result)[i] === elems(args[0])[j]
+//@   ensures fnreverse.valid: validObj(result)
+//@   implements HostFn
+//@   panics never
+
+//@ func fnSeconds(args []object.Object) (result object.Object)
+//@   requires forall i in 0..len(args) :: validObj(args[i])
+//@   requires forall i in 0..len(args) :: isArray(args[i]) ==> forall j in 0..len(elems(args[i])) :: validObj(elems(args[i])[j])
+//@   modifies nothing
+//@   ensures @C17 seconds.bad: !(len(args) == 1 && isInt(args[0])) ==> isNull(result)
+//@   ensures @C17 seconds.kind: len(args) == 1 && isInt(args[0]) ==> isInt(result)
+//@   ensures fnseconds.valid: validObj(result)
+//@   implements HostFn
+//@   panics never
+
+//@ func fnSplit(args []object.Object) (result object.Object)
+//@   requires forall i in 0..len(args) :: validObj(args[i])
+//@   requires forall i in 0..len(args) :: isArray(args[i]) ==> forall j in 0..len(elems(args[i])) :: validObj(elems(args[i])[j])
+//@   modifies nothing
+//@   ensures @C17 split.bad: !(len(args) == 2 && isStr(args[0]) && isStr(args[1])) ==> isNull(result)
+//@   ensures @C17 split.kind: len(args) == 2 && isStr(args[0]) && isStr(args[1]) ==> isArray(result) && fresh(result) && forall k in 0..len(elems(result)) :: isStr(elems(result)[k])
+//@   ensures fnsplit.valid: validObj(result)
+//@   implements HostFn
+//@   panics never
+//@ loop 1 invariant split.elements: fresh(elements) && len(elements) == len(pieces) && rangeindex < len(elements)
+//@ loop 1 invariant split.strings: forall k in 0..len(elements) :: k <= rangeindex ==> isStr(elements[k]) && ptr(elements[k]) != 0
+
+//@ func fnSprintf(args []object.Object) (result object.Object)
+//@   requires forall i in 0..len(args) :: validObj(args[i])
+//@   requires forall i in 0..len(args) :: isArray(args[i]) ==> forall j in 0..len(elems(args[i])) :: validObj(elems(args[i])[j])
+//@   modifies nothing
+//@   ensures @C17 sprintf.bad: !(len(args) >= 1 && isStr(args[0])) ==> isNull(result)
+//@   ensures @C17 sprintf.kind: len(args) >= 1 && isStr(args[0]) ==> isStr(result)
+//@   ensures fnsprintf.valid: validObj(result)
+//@   implements HostFn
+//@   panics never
+
+//@ func fnString(args []object.Object) (result object.Object)
+//@   requires forall i in 0..len(args) :: validObj(args[i])
+//@   requires forall i in 0..len(args) :: isArray(args[i]) ==> forall j in 0..len(elems(args[i])) :: validObj(elems(args[i])[j])
+//@   modifies nothing
+//@   ensures @C17 string.arity: len(args) != 1 ==> isNull(result)
+//@   ensures @C17 string.string: len(args) == 1 && isStr(args[0]) ==> isStr(result) && sval(result) == sval(args[0])
+//@   ensures @C17 string.int: len(args) == 1 && isInt(args[0]) ==> isStr(result) && sval(result) == sprintf("%d", ival(args[0]))
+//@   ensures fnstring.valid: validObj(result)
+//@   implements HostFn
+//@   panics never
+
+//@ func fnTrim(args []object.Object) (result object.Object)
+//@   requires forall i in 0..len(args) :: validObj(args[i])
+//@   requires forall i in 0..len(args) :: isArray(args[i]) ==> forall j in 0..len(elems(args[i])) :: validObj(elems(args[i])[j])
+//@   modifies nothing
+//@   ensures @C17 trim.arity: len(args) != 1 ==> isNull(result)
+//@   ensures @C17 trim.string: len(args) == 1 && isStr(args[0]) ==> isStr(result) && sval(result) == trimSpace(sval(args[0]))
+//@   ensures fntrim.valid: validObj(result)
+//@   implements HostFn
+//@   panics never
+
+//@ func fnType(args []object.Object) (result object.Object)
+//@   requires forall i in 0..len(args) :: validObj(args[i])
+//@   requires forall i in 0..len(args) :: isArray(args[i]) ==> forall j in 0..len(elems(args[i])) :: validObj(elems(args[i])[j])
+//@   modifies nothing
+//@   ensures @C17 type.arity: len(args) != 1 ==> isNull(result)
+//@   ensures @C17 type.int: len(args) == 1 && isInt(args[0]) ==> isStr(result) && sval(result) == strLower("INTEGER")
+//@   ensures @C17 type.string: len(args) == 1 && isStr(args[0]) ==> isStr(result) && sval(result) == strLower("STRING")
+//@   ensures @C17 type.array: len(args) == 1 && isArray(args[0]) ==> isStr(result) && sval(result) == strLower("ARRAY")
+//@   ensures fntype.valid: validObj(result)
+//@   implements HostFn
+//@   panics never
+
+//@ func fnUpper(args []object.Object) (result object.Object)
+//@   requires forall i in 0..len(args) :: validObj(args[i])
+//@   requires forall i in 0..len(args) :: isArray(args[i]) ==> forall j in 0..len(elems(args[i])) :: validObj(elems(args[i])[j])
+//@   modifies nothing
+//@   ensures @C17 upper.arity: len(args) != 1 ==> isNull(result)
+//@   ensures @C17 upper.kind: len(args) == 1 ==> isStr(result)
+//@   ensures fnupper.valid: validObj(result)
+//@   implements HostFn
+//@   panics never
+
+//@ func fnWeekday(args []object.Object) (result object.Object)
+//@   requires forall i in 0..len(args) :: validObj(args[i])
+//@   requires forall i in 0..len(args) :: isArray(args[i]) ==> forall j in 0..len(elems(args[i])) :: validObj(elems(args[i])[j])
+//@   modifies nothing
+//@   ensures @C17 weekday.bad: !(len(args) == 1 && isInt(args[0])) ==> isNull(result)
+//@   ensures @C17 weekday.kind: len(args) == 1 && isInt(args[0]) ==> isStr(result)
+//@   ensures fnweekday.valid: validObj(result)
+//@   implements HostFn
+//@   panics never
+
+//@ func fnYear(args []object.Object) (result object.Object)
+//@   requires forall i in 0..len(args) :: validObj(args[i])
+//@   requires forall i in 0..len(args) :: isArray(args[i]) ==> forall j in 0..len(elems(args[i])) :: validObj(elems(args[i])[j])
+//@   modifies nothing
+//@   ensures @C17 year.bad: !(len(args) == 1 && isInt(args[0])) ==> isNull(result)
+//@   ensures @C17 year.kind: len(args) == 1 && isInt(args[0]) ==> isInt(result)
+//@   ensures fnyear.valid: validObj(result)
+//@   implements HostFn
+//@   panics never
+
+//@ func fnPanic(args []object.Object) (out object.Object)
+//@   modifies nothing
+//@   implements HostFn
+//@   panics maybe
+
+//@ func getTimeField(args []object.Object, val string) (result object.Object)
+//@   requires forall i in 0..len(args) :: validObj(args[i])
+//@   modifies nothing
+//@   ensures @C17 timefield.bad: !(len(args) == 1 && isInt(args[0])) ==> isNull(result)
+//@   ensures @C17 timefield.int: len(args) == 1 && isInt(args[0]) && (val == "hour" || val == "minute" || val == "seconds" || val == "day" || val == "month" || val == "year") ==> isInt(result)
+//@   ensures @C17 timefield.weekday: len(args) == 1 && isInt(args[0]) && val == "weekday" ==> isStr(result)
+//@   ensures timefield.valid: validObj(result)
 //@   panics never
